@@ -82,6 +82,15 @@ EXPRS = {
     "child.*": ("child.*", [G.P("child.*")], ["child", "extra"]),
     "*": ("*", [G.P("*")], ["extra", "child"]),
     "kids.items": ("kids.items", [G.P("kids.items")], ["kids"]),
+    # node classes with a value-based __eq__: all nodes equal / an __eq__
+    # that raises for foreign operands; reachability goes by identity
+    "child.value@eq": ("child.value", [G.P("child.value")], ["child"]),
+    "child.child.value@eq": ("child.child.value",
+                             [G.P("child.child.value")], ["child"]),
+    "child.value@raises": ("child.value", [G.P("child.value")], ["child"]),
+    "child:value@raises": ("child:value", [G.P("child:value")], ["child"]),
+    "child.child.value@raises": ("child.child.value",
+                                 [G.P("child.child.value")], ["child"]),
     "child:kids:items": ("child:kids:items", [G.P("child:kids:items")],
                          ["child", "kids"]),
 }
@@ -116,7 +125,11 @@ def fresh_needed(ename):
 class World:
     def __init__(self, ename):
         self.ename = ename
-        self.pool = G.make_pool(fresh_class=fresh_needed(ename))
+        if "@" in ename:
+            self.pool = G.make_pool(eq={"eq": True, "raises": "raises"}[
+                ename.split("@")[1]])
+        else:
+            self.pool = G.make_pool(fresh_class=fresh_needed(ename))
         self.log = Log()
         self.registered = False
         self.had_cycle = False
